@@ -61,15 +61,18 @@ Proofs/PassThroughProofs.vos Proofs/PassThroughProofs.vok Proofs/PassThroughProo
 Properties/C11.vo Properties/C11.glob Properties/C11.v.beautified Properties/C11.required_vo: Properties/C11.v Compiler/Compile.vo Proofs/EmitProofs.vo Proofs/PassThroughProofs.vo
 Properties/C11.vio: Properties/C11.v Compiler/Compile.vio Proofs/EmitProofs.vio Proofs/PassThroughProofs.vio
 Properties/C11.vos Properties/C11.vok Properties/C11.required_vos: Properties/C11.v Compiler/Compile.vos Proofs/EmitProofs.vos Proofs/PassThroughProofs.vos
+Proofs/DynamicProofs.vo Proofs/DynamicProofs.glob Proofs/DynamicProofs.v.beautified Proofs/DynamicProofs.required_vo: Proofs/DynamicProofs.v Compiler/Emit.vo Proofs/EmitProofs.vo Proofs/PassThroughProofs.vo
+Proofs/DynamicProofs.vio: Proofs/DynamicProofs.v Compiler/Emit.vio Proofs/EmitProofs.vio Proofs/PassThroughProofs.vio
+Proofs/DynamicProofs.vos Proofs/DynamicProofs.vok Proofs/DynamicProofs.required_vos: Proofs/DynamicProofs.v Compiler/Emit.vos Proofs/EmitProofs.vos Proofs/PassThroughProofs.vos
+Properties/C02.vo Properties/C02.glob Properties/C02.v.beautified Properties/C02.required_vo: Properties/C02.v Base/GoStr.vo Proofs/EscapeProofs.vo Compiler/Emit.vo Proofs/EmitProofs.vo Proofs/DynamicProofs.vo
+Properties/C02.vio: Properties/C02.v Base/GoStr.vio Proofs/EscapeProofs.vio Compiler/Emit.vio Proofs/EmitProofs.vio Proofs/DynamicProofs.vio
+Properties/C02.vos Properties/C02.vok Properties/C02.required_vos: Properties/C02.v Base/GoStr.vos Proofs/EscapeProofs.vos Compiler/Emit.vos Proofs/EmitProofs.vos Proofs/DynamicProofs.vos
 Properties/C16.vo Properties/C16.glob Properties/C16.v.beautified Properties/C16.required_vo: Properties/C16.v Compiler/Compile.vo Proofs/SrcMapProofs.vo
 Properties/C16.vio: Properties/C16.v Compiler/Compile.vio Proofs/SrcMapProofs.vio
 Properties/C16.vos Properties/C16.vok Properties/C16.required_vos: Properties/C16.v Compiler/Compile.vos Proofs/SrcMapProofs.vos
 Properties/C10.vo Properties/C10.glob Properties/C10.v.beautified Properties/C10.required_vo: Properties/C10.v Compiler/Compile.vo
 Properties/C10.vio: Properties/C10.v Compiler/Compile.vio
 Properties/C10.vos Properties/C10.vok Properties/C10.required_vos: Properties/C10.v Compiler/Compile.vos
-Properties/C02.vo Properties/C02.glob Properties/C02.v.beautified Properties/C02.required_vo: Properties/C02.v Base/GoStr.vo Proofs/EscapeProofs.vo
-Properties/C02.vio: Properties/C02.v Base/GoStr.vio Proofs/EscapeProofs.vio
-Properties/C02.vos Properties/C02.vok Properties/C02.required_vos: Properties/C02.v Base/GoStr.vos Proofs/EscapeProofs.vos
 Base/Regex.vo Base/Regex.glob Base/Regex.v.beautified Base/Regex.required_vo: Base/Regex.v Base/GoStr.vo Gen/Consts.vo
 Base/Regex.vio: Base/Regex.v Base/GoStr.vio Gen/Consts.vio
 Base/Regex.vos Base/Regex.vok Base/Regex.required_vos: Base/Regex.v Base/GoStr.vos Gen/Consts.vos
